@@ -19,13 +19,13 @@ CHECKS = {
          "Trusted: reference model's legal-step generator for 'no legal step'.", "DESIGN.md §4 C04"),
  "C05": ("explicit-state exploration of whole confined games to fix-point (all histories the configuration admits) against exact, never-forgotten board histories",
          "E2 explores every game of each confined configuration breadth-first until no new state appears (or to a stated turn bound), following every offered action inside the domains; at every turn-ending transition the new board must differ from the explorer's snapshot of the turn-start board and (board, side) may have occurred at most once before in the explorer's exact list of turn-start positions, which is never cleared at captures. E1 adds the 'board unchanged' half on every family.",
-         "Window/material bound of the configurations; 64-bit hash collisions between boards outside the explored set are not addressed.", "DESIGN.md §2.2, §4 C05"),
+         "Window/material bound of the confined configurations; long histories (E8 lassos up to 450 entries, E9 Gray-code shuffles on the full-board seeds up to 33 / 65 entries, padded configurations) are scripted paths on which every offered action of every state is checked, not full state spaces; 64-bit hash collisions between boards outside the explored set are not addressed.", "DESIGN.md §2.2, §4 C05"),
  "C06": ("explicit-state exploration (E2 games to fix-point, E1 families); offered list compared, order preserved, with the rule-only list filtered by the exact repetition rule",
          "In every state of E2 and E1: valid_actions() must equal valid_actions_no_rep() minus exactly the turn-ending actions whose resulting board equals the turn-start board or would be the third turn-start occurrence of (board, side) in the explorer's exact never-forgotten history; same order; nothing else withheld. States after captures (where the engine forgets its history and the explorer does not) decide the 'forgetting never changes the offer' clause.",
-         "Window/material bound of the configurations.", "DESIGN.md §4 C06"),
+         "Window/material bound of the confined configurations; the long / dense histories of E8, E9 and the padded configurations are scripted paths on which every offered action of every state is checked.", "DESIGN.md §4 C06, §8.2"),
  "C07": ("explicit-state exploration of E1 families plus confined whole games to fix-point (E2); summary queries compared with the action lists in every state",
          "In every state of E1, E2 and the setup trie: no result => non-empty offered list; mid-turn result <=> empty list and it is a loss for the mover; has_move, can_pass(true/false) agree with the lists. E2's confined games reach the rare states where everything is withheld by repetition (counted in evidence).",
-         "Confined-game material/window bound for the repetition-dependent states.", "DESIGN.md §4 C07"),
+         "Confined-game material/window bound for the repetition-dependent states (incl. frozen armies padded to 12 pieces and the 18-piece dense corner game).", "DESIGN.md §4 C07"),
  "C08": ("explicit-state exploration; incremental hash compared with from-scratch hash on every state, feature->hash map single-valued across all paths",
          "On every state of E1/E2/E3: transposition_hash equals the from-scratch Zobrist of (board, side, step, status); per root/configuration the map features->hash is single valued over all paths; at every turn end the newest history entry is the from-scratch hash and every entry belongs to a played position; equal (board, side, step) compare and hash equal; parse(print(s)) link on turn-start states of F1, seeds and setup leaves.",
          "Zobrist::from_piece_board is the from-scratch definition (its own injectivity is C17).", "DESIGN.md §4 C08"),
@@ -37,7 +37,7 @@ CHECKS = {
          "Diagram comparison is done once per distinct board per worker.", "DESIGN.md §4 C10"),
  "C11": ("explicit-state exploration in 4-fold lock-step: every state compared with its images under file mirror, colour swap + rank flip, and both (no reference model)",
          "E1 families (every <=2-piece board, 2x2 fillings, seeds; thorough: 3-piece windows) for one full turn and E2 confined games to fix-point are run in lock-step with their three images: transformed offered and rule-only action sets, results, capture previews and resulting boards must coincide at every step, including which actions the repetition rules withhold.",
-         "Play phase only (setup order is not mirror symmetric by definition).", "DESIGN.md §4 C11"),
+         "Play phase only (setup order is not mirror symmetric by definition). Families closed under both symmetries are run with one primary per orbit {x, m(x), s(x), ms(x)} - an exact reduction, the lock-step comparison is symmetric; quick: F2 with kinds RCDErcde, hand-made seeds as written.", "DESIGN.md §4 C11"),
  "C12": ("explicit-state exploration; status after every step compared with a transcription of the statement; pending-push list compared with the model",
          "After every step of E1/E2 the reported push/pull status is compared with the deterministic reading of the statement computed from the previous status and the step; at every turn start it is None; while a push is pending the rule-only list must equal the completing steps of unfrozen strictly stronger friends (non-empty).",
          "Trusted: mailbox freezing/strength helpers.", "DESIGN.md §4 C12"),
@@ -63,7 +63,7 @@ CHECKS = {
          "On every state of E1/E2/E3 every query named in the statement and take_action of every offered action is executed under catch_unwind in a build with overflow-checks=true; any unwind is a violation.",
          "Queries outside their documented phase are not called.", "DESIGN.md §4 C19"),
  "C20": ("enumeration of a grid of child processes (profile x stack size x ownership shape x history length) with exit status as oracle, plus loom exploration of every interleaving of concurrent drops with a stack-depth probe",
-         "Child processes play a deterministic capture-free, repetition-free game of N turns (every action taken from valid_actions()) or build a synthetic history of N nodes, then clone, query and drop it in five ownership shapes on threads of 2 MiB and 256 KiB, in release and dev builds; N up to 1e6 (thorough 4e6 synthetic, 1e5 played). A stack overflow kills the child; any non-zero exit is a violation. Because the drop of a shared history races between owners, loom body B6 additionally explores every interleaving of 2-3 (thorough 4) owners dropping lists that share a 300-node tail, with a probe in each element's Drop that bounds the stack used below the drop call (4096 bytes; the iterative drop needs ~150).",
+         "Child processes play a deterministic capture-free, repetition-free game of N turns (every action taken from valid_actions()) or build a synthetic history of N nodes, then clone, query and drop it in ten ownership shapes (sole owner, clone, shared tails dropped in both orders, another thread, concurrent owners, diverging descendants, 64 clones, handles into the middle of the list, and twins: the same game built twice, compared with ==, hashed and used as HashSet/HashMap keys) on threads of 2 MiB and 256 KiB, in release and dev builds; N up to 1e6 (thorough 4e6 synthetic, 1e5 played). A stack overflow kills the child; any non-zero exit is a violation. Because the drop of a shared history races between owners, loom body B6 additionally explores every interleaving of 2-3 (thorough 4) owners dropping lists that share a 300-node tail, with a probe in each element's Drop that bounds the stack used below the drop call (4096 bytes; the iterative drop needs ~150).",
          "Monotonicity of recursion depth in N; lengths beyond the ladder are covered only through the 256 KiB row's per-node bound.", "DESIGN.md §4 C20"),
 }
 TODO = {}
